@@ -860,7 +860,7 @@ def main(chk):
         cases.append(dict(id="x%d" % i, kind="exh", D=Dx, part=pt))
     for i, pt in enumerate(parts(Ds, 2)):
         cases.append(dict(id="s%d" % i, kind="side", D=Ds, part=pt))
-    nr = chk.pick(400, 4000)
+    nr = chk.pick(1600, 4000)
     for i in range(nr):
         prof = {}
         if i % 10 == 3:
